@@ -174,6 +174,22 @@ func init() {
 // (contracts in proxy/responder).
 
 func (x *Exec) respHeaderMap(st *State, recv Value) MapV {
+	// a statically known *RawHTTPResponder: its header map is the real one (refinement glue between
+	// the interface-level ghost view and the implementation)
+	var dyn Value = recv
+	if o, ok := recv.(OpaqueV); ok && o.Dyn != nil {
+		dyn = o.Dyn
+	}
+	if p, ok := dyn.(PtrV); ok && p.LV == nil {
+		if n, ok := types.Unalias(x.resolveType(p.Elem)).(*types.Named); ok && n.Obj().Name() == "RawHTTPResponder" {
+			resp := x.specFieldOf(st, p, "response")
+			if rp, ok := resp.(PtrV); ok {
+				if m, ok := x.specFieldOf(st, rp, "Header").(MapV); ok {
+					return m
+				}
+			}
+		}
+	}
 	id := App("resphdr", SInt, x.asTermAny(recv))
 	st.assumeRaw(Gt(id, IntLit(1<<50)))
 	hp := x.L.pkgOf("net/http")
@@ -396,4 +412,68 @@ func init() {
 	models["time.Ticker.Stop"] = func(x *Exec, fr *Frame, st *State, pc *preparedCall, k func(*State, []Value)) {
 		k(st, nil)
 	}
+}
+
+// specFieldOf loads field name of the struct p points to.
+func (x *Exec) specFieldOf(st *State, p PtrV, name string) Value {
+	stt, ok := x.resolveType(p.Elem).Underlying().(*types.Struct)
+	if !ok {
+		return nil
+	}
+	for i := 0; i < stt.NumFields(); i++ {
+		if stt.Field(i).Name() == name {
+			return heapFieldLV{p: p, field: name, ftype: x.resolveType(stt.Field(i).Type())}.Load(x, st)
+		}
+	}
+	return nil
+}
+
+func init() {
+	// (*http.Client).Do: with CheckRedirect == nil the client follows 3xx answers itself and the
+	// caller never sees them; a relaying proxy therefore needs a client with a redirect policy.
+	models["net/http.Client.Do"] = func(x *Exec, fr *Frame, st *State, pc *preparedCall, k func(*State, []Value)) {
+		c := pc.recv.(PtrV)
+		cr := x.specFieldOf(st, c, "CheckRedirect")
+		var has *Term = TFalse
+		if f, ok := cr.(FuncV); ok {
+			if f.Sym != nil {
+				has = Ne(f.Sym, IntLit(0))
+			} else if f.Closure != nil {
+				has = TTrue
+			}
+		}
+		x.oblige(fr, st, "pre", "http.Client.Do/redirect-policy@"+x.siteLabel(pc.e), has, pc.e)
+		x.Obls[len(x.Obls)-1].Tag = "C08"
+		sig := pc.fn.Type().(*types.Signature)
+		rt := x.resolveType(sig.Results().At(0).Type())
+		errv := x.freshErr(st, "doerr").(OpaqueV)
+		st2 := st.clone()
+		st2.assumeRaw(Ne(errv.T, IntLit(0)))
+		k(st2, []Value{x.zeroValue(rt), errv})
+		st.assumeRaw(Eq(errv.T, IntLit(0)))
+		resp := x.zeroValue(rt).(PtrV)
+		resp.Addr = x.allocAddr(st, "response")
+		// the response carries a header map and a body
+		hdr := x.specFieldOf(st, resp, "Header")
+		if m, ok := hdr.(MapV); ok {
+			nm := MapV{ID: x.allocAddr(st, "resphdrmap"), Type: m.Type}
+			x.initEmptyMap(st, nm)
+			// content unknown: forget emptiness
+			ks := mapKeyStr(nm)
+			pres := st.heapArr(ks+"#present", ArrOf(SBool))
+			st.heap[ks+"#present"] = Store(pres, nm.ID, Var(x.fresh("hdrpresent"), ArrOf(SBool)))
+			heapFieldLV{p: resp, field: "Header", ftype: x.resolveType(sig.Results().At(0).Type().(*types.Pointer).Elem().Underlying().(*types.Struct).Field(fieldIndex(rt, "Header")).Type())}.Store(x, st, nm)
+		}
+		k(st, []Value{resp, errv})
+	}
+}
+
+func fieldIndex(ptrT types.Type, name string) int {
+	st := ptrT.(*types.Pointer).Elem().Underlying().(*types.Struct)
+	for i := 0; i < st.NumFields(); i++ {
+		if st.Field(i).Name() == name {
+			return i
+		}
+	}
+	return 0
 }
